@@ -508,7 +508,11 @@ def intro_shape(intro):
         fd = meta.get(name) or parent_type.field_map[name]
         key = node.alias.value if node.alias else name
         inner = unwrap_type(fd.type)
-        return {"k": key, "lib": fd.resolver is not None, "c": comp(inner, node, value)}
+        # which resolver `Executor.field_resolver` picks: field.resolver or parent_type.default_resolver or the schema-wide default.
+        # Only the LAST one is the harness's recording default resolver (and is not runtime-wrapped); the first two are library
+        # code: body not observable, wrapped by the runtime (thread pool: submitted), middlewares wrap all three alike.
+        lib = fd.resolver is not None or getattr(parent_type, "default_resolver", None) is not None
+        return {"k": key, "lib": lib, "c": comp(inner, node, value)}
 
     def comp(inner, node, value):
         if value is None:
